@@ -160,6 +160,7 @@ def run_check(prop, tier, seed):
 
         replayed_codes = {}
         conc_info = {}
+        not_reproduced = []
         for (code, evs, target, note, origin) in pending:
             if not claimed(code, plan['codes']):
                 others.append((code, note))
@@ -189,15 +190,17 @@ def run_check(prop, tier, seed):
                     spec = [d for d in plan['drivers'] if d.get('conc') and base.startswith('conc-%s-g' % d['name'])][0]
                     t = spec.get('tiers', {}).get(tier, {})
                     spec = dict(spec, limit=t.get('limit', spec.get('limit', 20000)))
-                    ev2, tries = vf.reobserve_conc(harness, spec, tier, seed, scratch, code, module=mod)
+                    ev2, tries = vf.reobserve_conc(harness, spec, tier, seed, scratch, code, module=mod, prefixes=plan['codes'])
                     if ev2 is not None:
                         conc_info[id(evs)] = {'driver': spec['name'], 'goroutines': spec.get('goroutines', 8), 'tier': tier,
                                               'seed': seed, 'limit': spec['limit']}
-                        note += ' (only when calls run concurrently in one process; observed again in a fresh concurrent run, attempt %d)' % tries
+                        note += ' (only when calls run concurrently in one process; observed again in a fresh concurrent run, attempt %d%s)' % (
+                            tries, ', there as failed demand %s' % ev2['_other_demand'] if '_other_demand' in ev2 else '')
                         codes = [code]
                 if code not in codes:
-                    raise vf.HarnessError('mismatch %s at %s did not reproduce, neither in isolation nor with its history '
-                                          '(codes now %s); not a verdict' % (code, note, codes))
+                    # not a verdict by itself; reported as such only when nothing else is established
+                    not_reproduced.append('mismatch %s at %s did not reproduce, neither in isolation nor with its history (codes now %s)' % (code, note, codes))
+                    continue
             if k:
                 known_hits.append((k, code, note))
             else:
@@ -205,6 +208,10 @@ def run_check(prop, tier, seed):
         # The trace specification lists at most 25 failures per demand code and chunk. Unlisted
         # failures share their code with listed ones; that only matters when every listed failure of
         # a claimed code was explained by a known finding (the unlisted ones might not be).
+        if not_reproduced and not violations:
+            raise vf.HarnessError(not_reproduced[0] + '; not a verdict')
+        for n in not_reproduced:
+            vf.log('NOTE: ' + n)
         if unreproduced and not violations:
             raise vf.HarnessError('%d graph disagreements were not reproduced when the point was executed alone (first: %s); '
                                   'no other demand failed, so there is no verdict' % (len(unreproduced), unreproduced[0]))
